@@ -41,6 +41,7 @@ type replayer struct {
 	fail    string
 	strVals map[string]string // model element -> Go string literal
 	strN    int
+	deadline time.Time
 }
 
 func (r *Run) tryReplay(o *Obl, rep map[string]interface{}) string {
@@ -52,7 +53,7 @@ func (r *Run) tryReplay(o *Obl, rep map[string]interface{}) string {
 	if p == nil {
 		return ""
 	}
-	rp := &replayer{run: r, vc: vc, o: o, pkg: p.Pkg, pinned: map[Term]string{}, objs: map[string]string{}, imports: map[string]string{}, strVals: map[string]string{}}
+	rp := &replayer{run: r, vc: vc, o: o, pkg: p.Pkg, pinned: map[Term]string{}, objs: map[string]string{}, imports: map[string]string{}, strVals: map[string]string{}, deadline: time.Now().Add(40 * time.Second)}
 	var src, oracle string
 	if vc.lemma != nil {
 		src, oracle = rp.buildLemma()
@@ -156,6 +157,10 @@ func replayFromFile(repo, file string) int {
 // values evaluates terms in the model of the failed obligation (previously
 // obtained values are pinned so that successive rounds see one model).
 func (rp *replayer) values(terms []Term) (map[Term]string, bool) {
+	if time.Now().After(rp.deadline) {
+		rp.fail = "replay time budget exhausted while decoding the model"
+		return nil, false
+	}
 	vc, o := rp.vc, rp.o
 	var b strings.Builder
 	b.WriteString(vc.scriptPrefix())
@@ -180,7 +185,7 @@ func (rp *replayer) values(terms []Term) (map[Term]string, bool) {
 	defer os.RemoveAll(dir)
 	file := filepath.Join(dir, "q.smt2")
 	os.WriteFile(file, []byte(b.String()), 0o644)
-	out, _ := runSolver(context.Background(), solvers[0], file, 20)
+	out, _ := runSolver(context.Background(), solvers[0], file, 5)
 	if os.Getenv("GOVC_DEBUG_REPLAY") != "" {
 		fmt.Fprintln(os.Stderr, "REPLAY QUERY", terms, "=>", trunc(out, 600))
 	}
